@@ -101,6 +101,11 @@ var tokTemplates = []tokTemplate{
 	tpl("valuedescriptions", "", `VAL_ !1 S 1 "a" 0 "b" ;`),
 	tpl("valuedescriptions", "", `VAL_ E 1 "a" ;`),
 	tpl("unknown", "", `FOO_ 1 a : ;`),
+	// string literals inside unknown lines (discardLine reads tokens, not strings): plain, with one and with
+	// two escaped quotes, with apostrophes / a backslash / UTF-8; variant 1 puts a definition on the next line
+	tpl("unknown", "", `FOO_ 1 "a" : ;`),
+	tpl("unknown", "", `TYRE_DEF_ 7 "19\"rim" 2.5 ;`),
+	tpl("unknown", "", `FOO_ "a\"b\"c" 'x' "\\d" "µ°C" ;`),
 }
 
 func boundaryTokens() []string {
